@@ -346,6 +346,8 @@ def _check_from_dict(prog: Program, L: Ledger, d: ClassInfo, fd: FuncInfo) -> No
                         return True
         return False
 
+    _check_restore_loops_unfiltered(prog, L)
+
     L.check(has_setattr_loop("attributes", inst), "T4", f"{d.name}.from_dict:attributes", fd.where,
             "from_dict does not replay the 'attributes' entry (step counter) onto the simulation", "step counter lost on restart", "attributes")
     L.check(has_setattr_loop("context", f"{inst}.context"), "T4", f"{d.name}.from_dict:context", fd.where,
@@ -472,3 +474,41 @@ def _check_cache_independence(prog: Program, L: Ledger) -> None:
     if not seen:
         L.ok("T8", "drivers:cache-independence", "src/quansino/mc", f"{n} abstract trials")
     L.floor("abstract trials checked for cache independence", n, 100)
+
+
+def _check_restore_loops_unfiltered(prog: Program, L: Ledger) -> None:
+    """T4 (all from_dict implementations of the package): a loop that replays stored entries with setattr(obj, key, value)
+    replays ALL of them — a guard on the truth value of `value` drops the legal falsy ones (default_label = 0,
+    max_attempts = 0, False flags, empty arrays) and the rebuilt object keeps its constructor default instead."""
+    if getattr(L, "_restore_loops_done", False):
+        return
+    L._restore_loops_done = True  # once per ledger (this is called from the per-driver from_dict check)
+    seen = set()
+    n = 0
+    for ci in prog.classes.values():
+        fd = ci.methods.get("from_dict")
+        if fd is None or fd.qualname in seen:
+            continue
+        seen.add(fd.qualname)
+        for lp in [x for x in walk_no_nested(fd.node) if isinstance(x, ast.For)]:
+            sets = [c for c in calls_in(lp) if isinstance(c.func, ast.Name) and c.func.id == "setattr" and len(c.args) == 3]
+            if not sets:
+                continue
+            n += 1
+            loop_names = {x.id for x in ast.walk(lp.target) if isinstance(x, ast.Name)}
+            bad = None
+            for st in ast.walk(lp):
+                if isinstance(st, ast.If) and any(c_ is s_ for s_ in sets for c_ in ast.walk(st)):
+                    t = st.test
+                    while isinstance(t, ast.UnaryOp) and isinstance(t.op, ast.Not):
+                        t = t.operand
+                    parts = t.values if isinstance(t, ast.BoolOp) else [t]
+                    for p in parts:
+                        if isinstance(p, ast.Name) and p.id in loop_names:
+                            bad = st
+                        if isinstance(p, ast.Call) and isinstance(p.func, ast.Name) and p.func.id in ("bool", "len") and p.args and isinstance(p.args[0], ast.Name) and p.args[0].id in loop_names:
+                            bad = st
+            L.check(bad is None, "T4", f"{fd.qualname}:restore-unfiltered", f"{fd.module.relpath}:{(bad or lp).lineno}",
+                    f"{fd.qualname} replays stored entries only when `{norm(bad.test)[:60] if bad is not None else ''}` is truthy: stored values that are 0, False or empty are skipped",
+                    "default_label = 0 (or max_attempts = 0) is written to the restart file but the rebuilt move has the constructor default: after a restart inserted atoms get another label, the trajectories diverge", "restore-filter")
+    L.floor("from_dict restore loops (setattr replay)", n, 3)
